@@ -30,9 +30,24 @@ const (
 
 type c20ev struct{ step, role uint8 }
 
-type c20trace struct{ ev []c20ev }
+type c20trace struct {
+	ev []c20ev
+	// overlapping evaluations: events are routed to the trace of the evaluation that is running, and onAdd lets the
+	// orchestrator park an evaluation inside a step
+	to    *c20trace
+	onAdd func(step int)
+}
 
-func (t *c20trace) add(step int, role uint8) { t.ev = append(t.ev, c20ev{uint8(step), role}) }
+func (t *c20trace) add(step int, role uint8) {
+	if t.to != nil {
+		t.to.ev = append(t.to.ev, c20ev{uint8(step), role})
+	} else {
+		t.ev = append(t.ev, c20ev{uint8(step), role})
+	}
+	if t.onAdd != nil {
+		t.onAdd(step)
+	}
+}
 
 // c20variant is one (kind, outcome) pair.
 type c20variant struct {
@@ -275,6 +290,119 @@ func c20runCk(r *core.Run, wl string, idx int, chain []*c20variant, t *c20trace)
 	return ck
 }
 
+// c20Overlap: two evaluations of ONE checker overlap. Evaluation A is parked inside a step (its goroutine waits in
+// one of the step's closures); evaluation B then runs from start to end on another goroutine; A is released. While A
+// is parked every closure call belongs to B, so both traces are known exactly, and each evaluation on its own must
+// behave as the reference interpreter says. An implementation that serialises evaluations cannot be overlapped like
+// this: B then does not finish while A is parked, and the case is counted but not judged.
+func c20Overlap(r *core.Run, idx int, rng *rand.Rand) {
+	const wl = "overlapping_evaluations"
+	for k := 0; k < 40; k++ {
+		L := 2 + rng.Intn(9)
+		chain := make([]*c20variant, L)
+		for i := range chain {
+			chain[i] = c20random(rng)
+			if rng.Intn(3) != 0 { // mostly passing steps, so that evaluations get far
+				c20mutate(rng, chain[i:i+1], 1)
+			}
+		}
+		router, ta, tb := &c20trace{}, &c20trace{}, &c20trace{}
+		ck := &checker.Checker{}
+		for i, v := range chain {
+			c20build(ck, router, i, v)
+		}
+		parkAt := rng.Intn(L)
+		armed := true
+		parked, release := make(chan struct{}), make(chan struct{})
+		router.to = ta
+		router.onAdd = func(step int) {
+			if armed && step == parkAt {
+				armed = false
+				close(parked)
+				<-release
+			}
+		}
+		type res struct {
+			failed bool
+			panic  string
+		}
+		eval := func(out chan res) {
+			defer func() {
+				if p := recover(); p != nil {
+					out <- res{panic: fmt.Sprint(p)}
+				}
+			}()
+			out <- res{failed: ck.CheckFailed()}
+		}
+		doneA, doneB := make(chan res, 1), make(chan res, 1)
+		go eval(doneA)
+		var ra, rb res
+		select {
+		case <-parked:
+		case ra = <-doneA:
+			// the parking step was not reached (the chain stopped earlier or the step calls no closure)
+			r.Count("overlap_not_reached", 1)
+			if ra.panic != "" {
+				c20violate(r, wl, idx, chain, "panic", ra.panic)
+			} else if cl, why := c20judge(chain, ta, ra.failed); cl != "" {
+				c20violate(r, wl, idx, chain, cl, why)
+			}
+			continue
+		case <-time.After(20 * time.Second):
+			r.Inconclusive("overlapping evaluations: the first evaluation neither reached its parking step nor returned within 20 s")
+			return
+		}
+		router.to = tb
+		go eval(doneB)
+		overlapped := false
+		select {
+		case rb = <-doneB:
+			overlapped = true
+		case <-time.After(2 * time.Second):
+		}
+		if !overlapped {
+			// evaluations of one checker exclude each other (or the machine is very slow): nothing to judge
+			close(release)
+			r.Count("overlap_not_possible", 1)
+			select {
+			case <-doneA:
+			case <-time.After(20 * time.Second):
+			}
+			select {
+			case <-doneB:
+			case <-time.After(20 * time.Second):
+				r.Inconclusive("overlapping evaluations: the second evaluation did not return within 20 s after the first was released")
+				return
+			}
+			continue
+		}
+		router.to = ta
+		close(release)
+		select {
+		case ra = <-doneA:
+		case <-time.After(20 * time.Second):
+			r.Inconclusive("overlapping evaluations: the parked evaluation did not return within 20 s after its release")
+			return
+		}
+		r.Count("overlapped_evaluation_pairs", 1)
+		r.Eval(fmt.Sprintf("overlap|%d|%d|%s|%s", L, parkAt, c20proj(ta), c20proj(tb)))
+		for _, x := range []struct {
+			name string
+			t    *c20trace
+			r    res
+		}{{"the evaluation that was parked inside step " + fmt.Sprint(parkAt), ta, ra}, {"the evaluation that ran while another one was parked inside step " + fmt.Sprint(parkAt), tb, rb}} {
+			if x.r.panic != "" {
+				c20violate(r, wl, idx, chain, "overlap/panic", x.name+": "+x.r.panic)
+				break
+			}
+			if cl, why := c20judge(chain, x.t, x.r.failed); cl != "" {
+				c20violate(r, wl, idx, chain, "overlap/"+cl, x.name+": "+why)
+				break
+			}
+		}
+	}
+}
+
 func c20violate(r *core.Run, wl string, idx int, chain []*c20variant, clause, why string) {
 	var names []string
 	for _, v := range chain {
@@ -289,7 +417,7 @@ func init() {
 		TimeoutQuick: 5 * time.Minute, TimeoutThorough: 30 * time.Minute,
 		Build: func(c *Ctx) []core.Workload {
 			r := c.Run
-			r.Rule = "every sequence over the (step kind, outcome) variants up to the stated length is built with the real checker from instrumented closures, evaluated twice, and its trace compared with a reference interpreter; plus random longer chains with random strings and bounds, each evaluated four more times on the same checker after the outcomes of its steps were changed (re-drawn, all passing, exactly one failing, all passing). Distinct = pairwise different sequences (by construction for the enumeration, by hash for random chains); non-trivial = length >= 2."
+			r.Rule = "every sequence over the (step kind, outcome) variants up to the stated length is built with the real checker from instrumented closures, evaluated twice, and its trace compared with a reference interpreter; plus random longer chains with random strings and bounds, each evaluated four more times on the same checker after the outcomes of its steps were changed (re-drawn, all passing, exactly one failing, all passing). Finally two evaluations of one checker overlap (one is parked inside a step while the other runs from start to end; both traces are known exactly because the parked goroutine calls nothing): each must behave as the reference says on its own. Distinct = pairwise different sequences (by construction for the enumeration, by hash for random chains); non-trivial = length >= 2."
 			r.Assume("the number of times a step reads its own value is not constrained")
 			variants := append([]c20variant{}, c20core...)
 			maxLen := 4
@@ -391,7 +519,8 @@ func init() {
 			r.Require("chains_enumerated", 1000)
 			r.Require("random_chains", 1000)
 			r.Require("evaluations_after_outcome_change", 1000)
-			return []core.Workload{enum, rnd}
+			ovl := core.Workload{Name: "overlapping_evaluations", N: c.Pick(50, 500), Fn: c20Overlap}
+			return []core.Workload{enum, rnd, ovl}
 		},
 	})
 }
